@@ -906,6 +906,26 @@ Fixpoint check_replies (limit : Z) (pw : bytes) (reqs : list (list bytes)) (reps
 
 Definition last_obs (obs : list sx) : sx := last obs (SL []).
 
+(* reads: the command types route may send to a replica (below the write marker, not a cursor scan) *)
+Definition is_read_request (a : list bytes) : bool :=
+  match assoc_b (to_lower (hd [] a)) CommandStr2Type with
+  | Some t => (t <? ReqWriteCmdStart) && negb (N.eqb t ReqHscan || N.eqb t ReqSscan || N.eqb t ReqZscan)
+  | None => false
+  end.
+
+(* a connection to a replica must carry READONLY (after the optional AUTH) before any request *)
+Definition replica_without_readonly (ranges : list sx) (addr : bytes) (reqs : list (list bytes)) : bool :=
+  let is_rep := existsb (fun r => match r with
+                                  | SL [_; _; _; SL reps] => existsb (fun x => match x with SB ra => beqb ra addr | _ => false end) reps
+                                  | _ => false end) ranges in
+  if negb is_rep then false
+  else
+    let after_auth := match reqs with a :: r => if beqb (to_lower (hd [] a)) (bs "auth") then r else reqs | [] => [] end in
+    match after_auth with
+    | [] => false
+    | a :: _ => negb (beqb (to_lower (hd [] a)) (bs "readonly"))
+    end.
+
 (* C04: a request (not redirected there by a node, not part of the handshake or the topology probe)
    must have been sent to the node that owns the slot of its first key in the configured table *)
 Definition misrouted (ranges : list sx) (addr : bytes) (a : list bytes) : bool :=
@@ -917,8 +937,12 @@ Definition misrouted (ranges : list sx) (addr : bytes) (a : list bytes) : bool :
        | [] => false
        | _ =>
          let slot := Z.of_N (key_slot key) in
-         match find (fun r => match r with SL [SN lo; SN hi; SB _] => (lo <=? slot)%Z && (slot <=? hi)%Z | _ => false end) ranges with
+         match find (fun r => match r with SL (SN lo :: SN hi :: SB _ :: _) => (lo <=? slot)%Z && (slot <=? hi)%Z | _ => false end) ranges with
          | Some (SL [_; _; SB owner]) => negb (beqb owner addr)
+         | Some (SL [_; _; SB owner; SL reps]) =>
+             (* replica reads enabled: the master, or - for a read - one of the replicas of the owning set *)
+             if beqb owner addr then false
+             else negb (is_read_request a && existsb (fun r => match r with SB ra => beqb ra addr | _ => false end) reps)
          | _ => true      (* unowned slot: nothing may be sent for it *)
          end
        end.
@@ -990,6 +1014,7 @@ Definition o_loop (a : sx) : sx :=
                     let reqs := all_requests (S (length got)) got in
                     if negb (Nat.eqb (length (concat (map enc_request reqs))) (length got)) then viol "backend-received-bytes-that-are-not-requests" [SB addr; SN k]
                     else if existsb (fun a => forallb (fun t => misrouted t addr a) tables) reqs then viol "request-delivered-to-a-node-that-does-not-own-the-slot" [SB addr; SN k]
+                    else if replica_without_readonly ranges addr reqs then viol "replica-connection-used-without-readonly" [SB addr; SN k]
                     else if negb (nondecreasing_per_client reqs []) then viol "requests-of-one-client-reordered-on-a-node" [SB addr; SN k]
                     else if (negb (beqb addr (bs "10.1.0.1:7000")) && ask_without_asking reqs false)%bool then viol "ask-redirect-without-asking" [SB addr; SN k]
                     else ok
@@ -1202,6 +1227,7 @@ Definition entries : list (bytes * (sx -> sx)) :=
     (bs "loop", e_loop);
     (bs "o_loop", o_loop);
     (bs "loopfinal", e_loopfinal);
+    (bs "loopspec", fun _ => SL []);
     (bs "buf", e_buf);
     (bs "o_buf", o_buf);
     (bs "info", e_info);
